@@ -8,6 +8,7 @@ import (
 	"strconv"
 	"strings"
 
+	"github.com/nspcc-dev/neo-go/pkg/encoding/bigint"
 	"github.com/nspcc-dev/neo-go/pkg/neotest"
 	"github.com/nspcc-dev/neo-go/pkg/vm/stackitem"
 	"github.com/stretchr/testify/require"
@@ -78,6 +79,20 @@ func (w *world) exec(st Step) chain.Rec {
 	switch st.Act {
 	case "wait":
 		w.c.Skip(21)
+	case "prep":
+		rec["op"] = st.Op
+		var r *chain.Result
+		switch {
+		case w.kind == "netmap" && st.Op == "snapcount":
+			r = w.c.Run(w.h, []neotest.Signer{w.c.Alpha}, "updateSnapshotCount", st.V)
+		case w.kind == "netmap" && st.Op == "newepoch":
+			e, _ := w.rawInt("snapshotEpoch")
+			r = w.c.Run(w.h, []neotest.Signer{w.c.Alpha}, "newEpoch", e+1)
+		default:
+			w.t.Fatalf("unknown prep op %q for %s", st.Op, w.kind)
+		}
+		rec["res"] = r.Res()
+		rec["fault"] = r.Fault
 	case "update":
 		sg, names := w.signers(st.S)
 		rec["S"] = names
@@ -134,6 +149,9 @@ func (w *world) observe() map[string]any {
 		if n, err := v.TryInteger(); err == nil {
 			ver = n.Int64()
 		}
+	}
+	if w.dump != nil {
+		w.dump.curVer = ver
 	}
 	api, info := [][3]string{}, [][3]string{}
 	if ver >= 0 {
@@ -249,6 +267,14 @@ func (w *world) probe() ([][3]string, [][3]string) {
 		} else {
 			f.add("totalSupply", "", "FAULT")
 		}
+		if it, ok := w.call("decimals"); ok {
+			n, _ := it.TryInteger()
+			f.add("decimals", "", n.String())
+		}
+		if it, ok := w.call("symbol"); ok {
+			b, _ := it.TryBytes()
+			f.add("symbol", "", string(b))
+		}
 	case "container":
 		w.probeContainer(f, bytesName)
 	case "netmap":
@@ -285,6 +311,7 @@ func (w *world) probe() ([][3]string, [][3]string) {
 			if w.dump == nil {
 				for _, p := range uNodes {
 					f.list("get", e+"|"+p, bytesName(func(b []byte) string { return string(b) }), num(e), w.pub(p))
+					f.list("getByID", e+"|"+p, bytesName(func(b []byte) string { return string(b) }), cat(vmInt(e), w.pub(p)))
 				}
 			} else if it, ok := w.call("listByEpoch", num(e)); ok {
 				for i, id := range arr(it) {
@@ -321,6 +348,23 @@ func (w *world) probe() ([][3]string, [][3]string) {
 			f.add("list", "", "FAULT")
 		}
 		for _, e := range uEpochsNZ {
+			for _, c := range uCids {
+				if w.dump != nil {
+					break
+				}
+				if it, ok := w.call("listByCID", num(e), cid(c)); ok {
+					for _, x := range arr(it) {
+						b, _ := x.TryBytes()
+						f.add("listByCID", e+"|"+c, idName(b))
+					}
+				}
+				if it, ok := w.call("listByNode", num(e), cid(c), w.irKeys[0].PublicKey().Bytes()); ok {
+					for _, x := range arr(it) {
+						b, _ := x.TryBytes()
+						f.add("listByNode", e+"|"+c, idName(b))
+					}
+				}
+			}
 			if it, ok := w.call("listByEpoch", num(e)); ok {
 				for _, x := range arr(it) {
 					b, _ := x.TryBytes()
@@ -465,6 +509,25 @@ func (w *world) probeContainer(f *facts, bytesName func(func([]byte) string) fun
 		if w.skip["listContainerSizes"] {
 			continue
 		}
+		if all, ok := w.call("iterateAllContainerSizes", num(e)); ok && !w.skip["iterateAllContainerSizes"] {
+			for _, kv := range arr(all) {
+				p := arr(kv)
+				if len(p) != 2 {
+					continue
+				}
+				kb, _ := p[0].TryBytes()
+				c := "x" + hex.EncodeToString(kb)
+				if len(kb) >= 32 {
+					c = cname(kb[:32])
+				}
+				sz := "?"
+				if ef := arr(p[1]); len(ef) == 2 {
+					n, _ := ef[1].TryInteger()
+					sz = numStr(n)
+				}
+				f.add("iterateAllContainerSizes", e, c+":"+sz)
+			}
+		}
 		it, ok := w.call("listContainerSizes", num(e))
 		if !ok {
 			f.add("listContainerSizes", e, "FAULT")
@@ -477,6 +540,16 @@ func (w *world) probeContainer(f *facts, bytesName func(func([]byte) string) fun
 				c = cname(b[len(b)-32:])
 			}
 			f.add("listContainerSizes", e, c)
+			if len(b) >= 35 && !w.skip["iterateContainerSizes"] {
+				if its, ok := w.call("iterateContainerSizes", num(e), b[len(b)-32:]); ok {
+					for _, est := range arr(its) {
+						if ef := arr(est); len(ef) == 2 {
+							n, _ := ef[1].TryInteger()
+							f.add("iterateContainerSizes", e+"|"+c, numStr(n))
+						}
+					}
+				}
+			}
 			if sz, ok := w.call("getContainerSize", b); ok {
 				if fl := arr(sz); len(fl) == 2 {
 					for _, est := range arr(fl[1]) {
@@ -492,12 +565,31 @@ func (w *world) probeContainer(f *facts, bytesName func(func([]byte) string) fun
 	}
 }
 
+// rawInt reads an integer storage item of the contract under test
+func (w *world) rawInt(key string) (int64, bool) {
+	var raw map[string][]byte
+	if w.dump != nil {
+		raw, _, _, _ = w.dump.raw()
+	} else {
+		raw = w.c.Storage(w.h)
+	}
+	v, ok := raw[hex.EncodeToString([]byte(key))]
+	if !ok {
+		return 0, false
+	}
+	return bigint.FromBytes(v).Int64(), true
+}
+
 func (w *world) probeNetmap(f *facts) {
 	if it, ok := w.call("epoch"); ok {
 		n, _ := it.TryInteger()
 		f.add("epoch", "", n.String())
 	} else {
 		f.add("epoch", "", "FAULT")
+	}
+	if it, ok := w.call("lastEpochBlock"); ok {
+		n, _ := it.TryInteger()
+		f.add("lastEpochBlock", "", n.String())
 	}
 	node := func(it stackitem.Item) string {
 		if w.dump != nil {
@@ -507,15 +599,22 @@ func (w *world) probeNetmap(f *facts) {
 	}
 	f.list("netmap", "", node)
 	f.list("netmapCandidates", "", node)
-	cnt := 10
-	if w.dump == nil {
-		cnt = 0
-		if raw, ok := w.c.Storage(w.h)[hex.EncodeToString([]byte("snapshotCount"))]; ok {
-			cnt = int(num(intDec(nil, "", "", raw)).Int64())
-		}
+	// the whole history: every diff below the STORED snapshot count, by diff and by epoch
+	cnt, _ := w.rawInt("snapshotCount")
+	epoch, _ := w.rawInt("snapshotEpoch")
+	for d := int64(0); d < cnt && d < 64; d++ {
+		f.list("snapshot", strconv.FormatInt(d, 10), node, d)
+		f.list("snapshotByEpoch", strconv.FormatInt(epoch-d, 10), node, epoch-d)
 	}
-	for d := 0; d < cnt && d < 12; d++ {
-		f.list("snapshot", strconv.Itoa(d), node, d)
+	// one step outside the ring must be refused
+	if _, ok := w.call("snapshot", cnt); ok && !w.skip["snapshot"] {
+		f.add("snapshot", strconv.FormatInt(cnt, 10), "ANSWERS")
+	}
+	// the structured node lists (empty for a contract that was never fed through addNode)
+	f.list("listCandidates", "", itemStr)
+	f.list("listNodes", "", itemStr)
+	for d := int64(0); d < cnt && d < 64 && !w.skip["listNodes"]; d++ {
+		f.list("listNodes", strconv.FormatInt(epoch-d, 10), itemStr, epoch-d)
 	}
 	f.list("listConfig", "", func(it stackitem.Item) string {
 		k, _ := arr(it)[0].TryBytes()
@@ -579,10 +678,22 @@ func (w *world) probeNNS(f *facts) {
 				f.add("properties", n, exp+"|"+adm)
 			}
 		}
+		if !strings.Contains(n, ".") {
+			continue // the record getters refuse a TLD since 0.18 (by design): not comparable
+		}
 		for _, typ := range []int{1, 16} {
 			if it, ok := w.call("getRecords", n, typ); ok {
 				for _, r := range arr(it) {
 					f.add("getRecords", n+":"+strconv.Itoa(typ), str(r))
+				}
+			}
+		}
+		if it, ok := w.call("getAllRecords", n); ok {
+			for _, r := range arr(it) {
+				if rf := arr(r); len(rf) == 4 {
+					typ, _ := rf[1].TryInteger()
+					id, _ := rf[3].TryInteger()
+					f.add("getAllRecords", n, typ.String()+":"+id.String()+":"+str(rf[2]))
 				}
 			}
 		}
